@@ -260,6 +260,7 @@ class TwinDriver:
             raise Violation('shorthand_same_result',
                             f'{op}: through the controller -> {lab(r1)!r}, '
                             f'World call -> {lab(r2)!r}', op=kind)
+        self._compare_reads(ctx, op)
         k1 = self.key_of(ctx, 0)
         k2 = self.key_of(ctx, 1)
         if k1 != k2:
@@ -277,6 +278,53 @@ class TwinDriver:
                                 f'1 has entity = {k.entity!r}, world '
                                 f'{"ok" if k.world is ctx.w[i] else k.world!r}',
                                 op=kind, twin=i)
+
+    def _compare_reads(self, ctx, op):
+        """Every read-only shorthand is asked after every operation (also
+        after plain World calls), so that anything a shorthand remembers
+        from an earlier read is confronted with the world as it is now; and
+        the twins must hold the *same instances* (by label), not merely the
+        same types."""
+        w1, w2 = ctx.w
+        for e in IDS:
+            l1 = sorted(c.label for c in w1.get_components(e))
+            l2 = sorted(c.label for c in w2.get_components(e))
+            if l1 != l2:
+                raise Violation('shorthand_same_effect',
+                                f'{op}: entity {e} owns {l1} on the '
+                                f'controller side, {l2} on the World side',
+                                op=op[0], instances=True)
+        vehicles = []
+        if self._knows(ctx):
+            vehicles.append((ctx.k[0], 1))
+        free = K('free')
+        free.entity, free.world = 2, w1
+        vehicles.append((free, 2))
+        for k, e in vehicles:
+            reads = [('get_components', lab(k.get_components()),
+                      lab(w2.get_components(e)))]
+            for t in self.types + ('K',):
+                klass = TYPES[t]
+                reads.append((f'has_component({t})', k.has_component(klass),
+                              w2.has_component(e, klass)))
+                reads.append((f'get_component({t})',
+                              lab(k.get_component(klass)),
+                              lab(w2.get_component(e, klass))))
+            for t in self.types:
+                reads.append((f'reference {t}', lab(getattr(k, REFS[t])),
+                              lab(w2.get_component(e, TYPES[t]))))
+            for p in PTYPES:
+                reads.append((f'processor reference {p}',
+                              lab(getattr(k, PREFS[p])),
+                              lab(w2.get_processor(PTYPES[p]))))
+            for what, a, b in reads:
+                if a != b:
+                    raise Violation(
+                        'shorthand_same_result',
+                        f'after {op}: {what} through the controller of '
+                        f'entity {e} -> {a!r}, World call -> {b!r}',
+                        op='read_after_' + op[0])
+        ctx.hits['reads_compared_after_every_operation'] += 1
 
     def _shorthand(self, ctx, op, k, w2, entity=1):
         kind = op[0]
@@ -523,7 +571,8 @@ def run(tier, rep):
         'classes sharing a __name__ share the prefixed method (documented: '
         'use init_methods to tell them apart)',
     ]
-    rep.require_hits(free_controller_f_delete=1,
+    rep.require_hits(reads_compared_after_every_operation=1,
+                     free_controller_f_delete=1,
                      shorthand_on_entity_without_components=1,
                      shorthand_s_add=1, shorthand_ref_set=1,
                      shorthand_pref_set=1, shorthand_s_delete=1,
